@@ -8,7 +8,7 @@ TECHNIQUE = "static analysis over type-checked MIR: guard-span (lock/encode/flus
 LEVEL_TEXT = """Static, all-paths decision of the premises from which the property follows given the trusted base: (R1) in FileAppender::append a single parking_lot lock on the writer field dominates everything, and the encode and flush calls reach the writer only through that guard and lie inside the guard's span on every path; (R2) every path from encode to an Ok return passes io::Write::flush on the guarded writer; (R3) the writer field is touched only by append and constructed only in the builder, with the type Mutex<SimpleWriter<BufWriter<File>>>, and the module never clones/extracts the handle; (R4) the builder's open options as a truth table over the append flag: create, writable, append=>O_APPEND and no truncate, !append=>truncate, same path as create_dir_all, and no truncate call reachable from append; (W1) SimpleWriter forwards write/flush/write_all/write_fmt to the wrapped writer. The OS/file-system half (what other readers see, O_APPEND atomicity) is not decided."""
 LEVEL_NOTE = "Trusted: rustc MIR and callee resolution; parking_lot mutual exclusion; BufWriter::flush writes all buffered bytes or errs; OS append semantics. Quantifies over all paths of the anchored functions (all record sizes, all schedules) but decides only the structural premises, not the file-system behaviour."
 EXPLANATION = """Decided (structural, all paths): R1 critical section, R2 acknowledged=>flushed, R3 single handle, R4 open options table, W1 SimpleWriter forwarding. Undecided (behavioural): visibility to other readers and atomicity of O_APPEND writes in the OS/file system; behaviour of user-supplied encoders."""
-DECIDED = ["R1 lock/encode/flush under one guard", "R2 flush follows encode on every Ok path", "R3 single writer handle, private, never extracted", "R4 open-option truth table and path agreement; no truncate reachable from append", "W1 SimpleWriter forwards io::Write methods", "R5 append defaults to true for appenders built from a document (C14.K2 re-evaluated)"]
+DECIDED = ["R1 lock/encode/flush under one guard", "R2 flush follows encode on every Ok path", "R3 single writer handle, private, never extracted", "R4 open-option truth table and path agreement; no truncate reachable from append", "W1 SimpleWriter forwards io::Write methods", "R5 append defaults to true for appenders built from a document (C14.K2 re-evaluated)", "R6 builder setters store their argument and nothing else"]
 UNDECIDED = ["OS-level visibility/atomicity", "user-supplied Encode implementations"]
 TRUSTED = ["rustc nightly MIR + Instance::try_resolve", "parking_lot::Mutex mutual exclusion", "std BufWriter::flush / OpenOptions semantics", "OS O_APPEND semantics"]
 
